@@ -14,7 +14,11 @@ Three oracle layers per execution
        `store.csr` are counting proxies; the reported counters must equal the work the proxies saw, the
        budgets must hold for the *performed* work too, and no node at/over its budget may be expanded;
  (iii) a boring reference propagation (plain list kept sorted best-first) -> identical per-graph deltas,
-       counters, max_delta, final activations and pop trace.
+       counters, max_delta, final activations and pop trace; evaluated on cases that passed (i) and (ii).
+
+Differences from DESIGN.md "C12": the "loose" pop budget is 128 instead of the engine default 10^4 (LOOSE_Q below);
+one more text (all three nodes) and two more config dimensions (slice caps looser than the config value, a second
+active graph); the accumulator is observed too (`t1.defaultdict`), which makes activation values checkable.
 """
 from __future__ import annotations
 
@@ -803,6 +807,12 @@ def _worker(chunk, st: Stats, tier):
                 V, outcome, nontrivial = judge(sc, dev, P, res, store, before, state)
                 st.add("validated")
                 st.distinct("outcomes", outcome)
+                if outcome >= 0 and outcome % 8:
+                    st.add("ref_exempt_near_tie")          # layer (iii) skipped: a decision hinged on < 1e-12
+                elif P["relax"] == 0:
+                    st.add("ref_exempt_relax_cap_0")
+                elif not V or any(sig.startswith("ref:") for sig, _w in V):
+                    st.add("ref_compared")                 # layers (i)+(ii) clean -> compared with the reference
                 if nontrivial:
                     st.add("nontrivial")
                 if V:
